@@ -240,6 +240,26 @@ theorem c06_bridge_remove_guard :
         then removeNode c q (curIndex (q.handles h)) else (q, .error .badNode)) :=
   ⟨remove_guard_spec, remove_eq_guard⟩
 
+/-- The sift loops consult the comparator only through its documented contract: the three call sites, re-translated
+from priority_queue.c, are `pred(first_item, other_item) > 0` (twice, `s_sift_down`) and
+`pred(parent_item, child_item) > 0` (`s_sift_up`) — argument order and relational operator pinned — which are the
+model's tests `c.gt` with `c.gt a b := pred(a, b) > 0` on the C `int` result.  Every theorem above assumes of the
+comparator only that `¬ (pred(a, b) > 0)` is a total preorder (`CmpOK`), nothing about the sign or magnitude of
+non-positive results, nor antisymmetry of the integer value. -/
+theorem c06_bridge_compare_sites :
+    Gen.HeapIdx.sift_down_site1_args = ["first_item", "other_item"] ∧
+    Gen.HeapIdx.sift_down_site2_args = ["first_item", "other_item"] ∧
+    Gen.HeapIdx.sift_up_site1_args = ["parent_item", "child_item"] ∧
+    (∀ r, r < 2^32 → (Gen.HeapIdx.sift_down_site1_test r = true ↔ (0 < r ∧ r < 2^31))) ∧
+    (∀ r, r < 2^32 → (Gen.HeapIdx.sift_down_site2_test r = true ↔ (0 < r ∧ r < 2^31))) ∧
+    (∀ r, r < 2^32 → (Gen.HeapIdx.sift_up_site1_test r = true ↔ (0 < r ∧ r < 2^31))) ∧
+    (∀ (pred : Nat → Nat → Nat), (∀ a b, pred a b < 2^32) → ∀ a b,
+      (cmpOfPred pred).gt a b = Gen.HeapIdx.sift_down_site1_test (pred a b) ∧
+      (cmpOfPred pred).gt a b = Gen.HeapIdx.sift_down_site2_test (pred a b) ∧
+      (cmpOfPred pred).gt a b = Gen.HeapIdx.sift_up_site1_test (pred a b)) := by
+  obtain ⟨h1, h2, h3, h4, h5, h6⟩ := sift_sites_bridge
+  exact ⟨h1, h2, h3, h4, h5, h6, cmpOfPred_gt⟩
+
 /-! ### The instance `Nat` with `≤` (the comparator of the C06 harness) -/
 
 /-- heap order for `natCmp` is the numeric one -/
